@@ -1455,7 +1455,27 @@ func (c *codegen) Visit(node ast.Node) ast.Visitor {
 		// This will load local whatever X is.
 		ast.Walk(c, n.X)
 		ast.Walk(c, n.Index)
-		emit.Opcodes(c.prog.BinWriter, opcode.PICKITEM) // just pickitem here
+		typ := c.typeOf(n.X)
+		if typ == nil {
+			emit.Opcodes(c.prog.BinWriter, opcode.PICKITEM)
+			return nil
+		}
+		mapType, ok := typ.Underlying().(*types.Map)
+		if !ok {
+			emit.Opcodes(c.prog.BinWriter, opcode.PICKITEM) // just pickitem here
+			return nil
+		}
+		// Indexing a map with a missing key yields the zero value of the element type.
+		lHasKey := c.newLabel()
+		lEnd := c.newLabel()
+		emit.Opcodes(c.prog.BinWriter, opcode.OVER, opcode.OVER, opcode.HASKEY)
+		emit.Jmp(c.prog.BinWriter, opcode.JMPIFL, lHasKey)
+		emit.Opcodes(c.prog.BinWriter, opcode.DROP, opcode.DROP)
+		c.emitDefault(mapType.Elem())
+		emit.Jmp(c.prog.BinWriter, opcode.JMPL, lEnd)
+		c.setLabel(lHasKey)
+		emit.Opcodes(c.prog.BinWriter, opcode.PICKITEM)
+		c.setLabel(lEnd)
 
 		return nil
 
